@@ -77,11 +77,15 @@ def finish(ctx, explanation, trusted_base=None, extra_cov=None):
     new = []
     printed = set()
     for v in ctx.violations:
-        k = known_keys.get(v["key"])
+        base_key = v["key"]
+        for suf in ("@default", "@nodefault", "@alltargets"):
+            if base_key.endswith(suf):
+                base_key = base_key[:-len(suf)]
+        k = known_keys.get(base_key)
         if k is not None:
-            if v["key"] not in printed:
-                print("KNOWN-FINDING: property=%s %s -- %s" % (ctx.prop, v["key"], k.get("what", v["detail"])))
-                printed.add(v["key"])
+            if base_key not in printed:
+                print("KNOWN-FINDING: property=%s %s -- %s" % (ctx.prop, base_key, k.get("what", v["detail"])))
+                printed.add(base_key)
         else:
             new.append(v)
     evdir = os.environ.get("MQ_EVIDENCE_DIR") or os.path.join(VERIF, "evidence")
